@@ -73,7 +73,8 @@ def check(prog: Program, tier: str) -> Result:
     _r4_k(prog, res)
     _r4_l(prog, res)
     _r4_m(prog, res)
-    res.floors.update({"R4.m": 2, "R4.a": 25, "R4.b": 200, "R4.c": 4, "R4.d": 18, "R4.e": 8, "R4.f": 40, "R4.h": 2, "R4.i": 2, "R4.j": 5, "R4.k": 1})
+    _r4_n(prog, res)
+    res.floors.update({"R4.n": 2, "R4.m": 2, "R4.a": 25, "R4.b": 200, "R4.c": 4, "R4.d": 18, "R4.e": 8, "R4.f": 40, "R4.h": 2, "R4.i": 2, "R4.j": 5, "R4.k": 1})
     return res
 
 
@@ -745,6 +746,82 @@ def _r4_m(prog: Program, res: Result) -> None:
         raise AnalysisError("no validity oracle (try: ast.parse(param) ... return bool) found")
 
 
+SYMPY_TEXT_SINKS = ("parse_expr", "sympify", "simplify", "S", "nsimplify")
+
+
+def _r4_n(prog: Program, res: Result) -> None:
+    """Program text handed to sympy's PARSER: parse_expr / sympify / simplify of a *string* evaluates that string with
+    sympy's own grammar and `eval`, and raises an open set of exceptions (SympifyError, TypeError, AttributeError,
+    TokenError, NotImplementedError, ...) for texts that are perfectly good Python - `sum(range(a[0]))`, `sum(range(1 << n))`,
+    a string operand.  Every call from a rule generator into a function that (transitively, decorators included) feeds
+    sympy's parser sits in a handler covering Exception; the rule then leaves the construct alone."""
+    from ..evaluator import caught as _caught
+    from ..defuse import bindings
+
+    def texty(e: ast.AST, fn: Func, depth: int = 0) -> bool:
+        if depth > 3:
+            return False
+        if isinstance(e, ast.JoinedStr) or (isinstance(e, ast.Constant) and isinstance(e.value, str)):
+            return True
+        if isinstance(e, ast.Call):
+            d = prog.dotted(e.func) or ""
+            if d.endswith("unparse") or d in ("str", "repr") or d.endswith(".join") or d.endswith(".strip") or d.endswith("get_code"):
+                return True
+            if isinstance(e.func, ast.Attribute) and e.func.attr in ("strip", "join", "format", "replace", "lstrip", "rstrip"):
+                return True
+        if isinstance(e, ast.Name):
+            if e.id in fn.all_params:
+                ann = {a.arg: a.annotation for a in fn.node.args.posonlyargs + fn.node.args.args + fn.node.args.kwonlyargs}.get(e.id)
+                return ann is not None and norm(ann) == "str" or e.id in ("source", "expression", "expr", "text", "code")
+            return any(v is not None and texty(v, fn, depth + 1) for _s, v in bindings(fn).get(e.id, []))
+        return False
+    direct = {}
+    for fn in prog.funcs.values():
+        for c in prog.calls_in(fn):
+            d = prog.dotted(c.func) or ""
+            head = d.split(".")[0]
+            if fn.mod.aliases.get(head) and fn.mod.aliases[head][1].split(".")[0] == "sympy" and d.split(".")[-1] in SYMPY_TEXT_SINKS and c.args and texty(c.args[0], fn):
+                direct.setdefault(fn.key, c)
+    if not direct:
+        raise AnalysisError("no call handing text to sympy's parser found (anchor lost)")
+    reaching = dict(direct)
+    changed = True
+    while changed:
+        changed = False
+        for fn in prog.funcs.values():
+            if fn.key in reaching:
+                continue
+            hit = None
+            for c in prog.calls_in(fn):
+                r = prog.resolve_call(c.func, fn.mod, fn)
+                if r and r[0] == "fn" and r[1].key in reaching and not (_caught(c, fn, "Exception")):
+                    hit = c
+                    break
+            if hit is None:
+                # decorated by a repository decorator whose inner wrapper reaches the parser
+                for dname in fn.decorators:
+                    dec = prog.resolve_name(fn.mod, dname.split("(")[0], fn.outer)
+                    if dec is not None and any(k in reaching for k in prog.funcs if k[0] == dec.key[0] and k[1].startswith(dec.qual + ".<locals>.")):
+                        hit = fn.node
+            if hit is not None and not fn.is_fix:
+                reaching[fn.key] = hit
+                changed = True
+    n = 0
+    for fn in prog.funcs.values():
+        if not fn.is_fix:
+            continue
+        for c in prog.calls_in(fn):
+            r = prog.resolve_call(c.func, fn.mod, fn)
+            if r and r[0] == "fn" and r[1].key in reaching:
+                n += 1
+                h = _caught(c, fn, "Exception")
+                res.decide(h is not None, "R4.n", fn.loc(c), fn.fq, short(c, 70),
+                           "sits in a handler covering Exception: what sympy cannot read is left alone" if h is not None else
+                           f"{r[1].name}() hands program text to sympy's parser (through {prog.funcs[r[1].key].fq if r[1].key in direct else 'its callees'}) outside any handler for Exception: "
+                           "SympifyError / TypeError / AttributeError / NotImplementedError of sympy leave format_code")
+    res.analysed["sympy_text_sinks"] = sorted(f"{k[0]}.{k[1]}" for k in direct)
+
+
 def _r4_l(prog: Program, res: Result) -> None:
     """Parsing a SNIPPET: core.parse / ast.parse of a text that is not the function's own text parameter (the spelling of
     one literal, an uncommented comment block, ...) raises SyntaxError unless the snippet was validated first.  A
@@ -1050,6 +1127,16 @@ class ValidPA(PathAnalysis):
 from ..selftest import Variant  # noqa: E402
 
 VARIANTS = [
+    Variant("sympy-parser-unfenced", "FIRE", "symbolic_math",
+            "            try:\n                replacement = _sum_range(arg)\n            except Exception:  # sympy parses the text of the arguments, and cannot read all of python\n                continue\n            yield node, replacement\n",
+            "            yield node, _sum_range(arg)\n", "R4.n"),
+    Variant("sympy-parser-fenced-for-typeerror-only", "FIRE", "symbolic_math",
+            "            try:\n                replacement = _sum_constants(arg.elts)\n            except Exception:\n                continue\n",
+            "            try:\n                replacement = _sum_constants(arg.elts)\n            except TypeError:\n                continue\n", "R4.n"),
+    Variant("sympy-fence-inside-the-helper", "SILENT", "symbolic_math",
+            "            try:\n                replacement = _integrate_over(arg.elt, arg.generators)\n            except Exception:\n                continue\n            yield node, replacement\n",
+            "            replacement = _integrate_or_none(arg.elt, arg.generators)\n            if replacement is None:\n                continue\n            yield node, replacement\n",
+            extra=[("symbolic_math", "@processing.fix\ndef simplify_math_iterators(", "def _integrate_or_none(expr, generators):\n    try:\n        return _integrate_over(expr, generators)\n    except Exception:\n        return None\n\n\n@processing.fix\ndef simplify_math_iterators(")]),
     Variant("oracle-handles-syntax-errors-only", "FIRE", "core",
             "    except (SyntaxError, ValueError, RecursionError, MemoryError):\n        # ValueError: null bytes, lone surrogates. RecursionError: too deeply nested for the parser.\n        return False",
             "    except SyntaxError:\n        return False", "R4.m"),
